@@ -174,5 +174,15 @@ PROPS["C19"] = {
     "note": "_ASTMatcher works on untyped generic trees (ast.iter_fields); pyvc's encoding has no universal tree datatype yet, so the matcher itself is not under contract.",
     "undecided": ["matcher soundness and completeness for all patterns", "meaning preservation of arbitrary goals"],
 }
+PROPS["C20"] = {
+    "sidecars": ["c20_commenter.py", "c14_worder.py"],
+    "level": "exploration",
+    "claim": "Mostly bounded: completion at every offset and every line truncation of a fixed module (no internal error, proposals extend the prefix), completeness "
+             "probes against hand-listed visible names, go-to-definition on every identifier of the C02 catalogue against the reference binder, scenarios.  "
+             "Deductive kernels: the syntax fixer's offset bookkeeping (_Commenter._set/_insert record exactly the length change per original line) and the word "
+             "scanners (C14 contracts) are proved for all inputs.",
+    "note": "visible-name computation (_undotted_completions over pyscopes) and FixSyntax's retry loop are not under contract.",
+    "undecided": ["internal-error freedom for all modules", "completeness of proposals for all scopes"],
+}
 _NB = "check not built yet (framework under construction; see DESIGN.md section 8)"
 NOT_APPLICABLE = {"C%02d" % i: _NB for i in range(1, 21)}
